@@ -103,6 +103,43 @@ Theorem c17_tables_are_dicts : forall s m, from_dict s = Some m -> NoDup (map fs
 Proof. exact from_dict_tables_nodup. Qed.
 Print Assumptions c17_tables_are_dicts.
 
+(* ---- str.lower() on names outside ASCII (strengthening round 6; C17/Case.v, table coq/gen/C17Case.v read from
+   the interpreter's str.lower() on every run): c17_to_only_symmetric / c17_fro_only_symmetric above and every
+   theorem about from_dict / to_ / ava_from hold for maps with ANY names; these are the facts about lower they use *)
+Theorem c17_lower_idempotent : forall s, lower (lower s) = lower s.
+Proof. exact lower_idem. Qed.
+Print Assumptions c17_lower_idempotent.
+
+Theorem c17_lower_keeps_outer_whitespace : forall s, no_outer_ws (lower s) = no_outer_ws s.
+Proof. exact no_outer_ws_lower. Qed.
+Print Assumptions c17_lower_keeps_outer_whitespace.
+
+Theorem c17_lower_ascii_part : forall s,
+  all_chars (fun a => is_K1 (clen a)) s = true -> lower s = Str.lower s.
+Proof. exact lower_single_bytes. Qed.
+Print Assumptions c17_lower_ascii_part.
+
+(* every entry of the regenerated table: its image is made of complete characters that lower() leaves alone, and
+   neither the character nor its image begins or ends with a whitespace byte *)
+Theorem c17_lower_table_checked : tables_ok table = true.
+Proof. exact table_ok_true. Qed.
+Print Assumptions c17_lower_table_checked.
+
+(* a one-directional map with sharp s, final sigma and a non-ASCII capital: symmetric; reached by the spellings
+   str.lower() identifies, not by those only casefold() / upper() identify; round trip *)
+Theorem c17_non_ascii_names_example :
+  exists m, from_dict u_map = Some m /\ map_symmetric m /\
+    wire_name m u_strasse = Some "urn:example:attr:street" /\
+    wire_name m u_STRAsSE = Some "urn:example:attr:street" /\
+    wire_name m "STRASSE" = None /\ wire_name m "strasse" = None /\
+    wire_name m u_kodikos = Some "urn:example:attr:code" /\ wire_name m u_kodikos_sigma = None /\
+    wire_name m u_aerger = Some u_AERGER /\ local_name m u_AERGER = Some u_aerger /\
+    roundtrip [m] [(u_STRAsSE, ["Bahnhofstr. 1"]); (u_aerger, [" x "])] (nf m) false true
+    = Some [(lower u_strasse, [LStr "Bahnhofstr. 1"]); (u_aerger, [LStr "x"])]
+    /\ lower u_strasse = sb [115;116;114;97;195;159;101]%N /\ lower u_STRAsSE = lower u_strasse.
+Proof. exact non_ascii_names. Qed.
+Print Assumptions c17_non_ascii_names_example.
+
 (* ---- regenerated table theorems (live tables of the five bundled converters; vm_compute) *)
 Theorem c17_bundled_from_dict : map from_dict bundled_src = map Some bundled.
 Proof. exact bundled_from_dict_holds. Qed.
